@@ -80,8 +80,8 @@ static bool real_shape_ok(const char* s, bool& conv)
 // given is built by a trivial model of basic_string(const char*) that only stores the pointer (solver build only).
 struct RawString { const char* p; size_t len; char buf[16]; };      // libstdc++ (cxx11 ABI) std::string
 static_assert(sizeof(RawString) == sizeof(std::string), "std::string layout");
-struct XInvalidArgument { int x; };
-struct XOutOfRange { int x; };
+struct XInvalidArgument : public std::exception { int x; };   // like std::invalid_argument: a std::exception
+struct XOutOfRange : public std::exception { int x; };        // like std::out_of_range: a std::exception
 extern "C" void m_string_ctor(std::string* self, const char* s, const std::allocator<char>& a) { RawString* r = reinterpret_cast<RawString*>(self); r->p = s; r->len = 0; }
 extern "C" void m_string_dtor(std::string* self) { }
 static const char* chars_of(const std::string& s) { return reinterpret_cast<const RawString*>(&s)->p; }
